@@ -372,6 +372,37 @@ def rename_function(fn, newname):
     return new_fn
 
 
+class PrivateNameMangler(ast.NodeTransformer):
+    """Apply the name mangling of class bodies (__x -> _Class__x)."""
+
+    def __init__(self, clsname):
+        self.prefix = "_" + clsname.lstrip("_")
+
+    def mangle(self, name):
+        if name.startswith("__") and not name.endswith("__") and "." not in name:
+            return self.prefix + name
+        return name
+
+    def visit_Name(self, node):
+        node.id = self.mangle(node.id)
+        return node
+
+    def visit_Attribute(self, node):
+        self.generic_visit(node)
+        node.attr = self.mangle(node.attr)
+        return node
+
+    def visit_arg(self, node):
+        node.arg = self.mangle(node.arg)
+        return node
+
+    def visit_keyword(self, node):
+        self.generic_visit(node)
+        if node.arg is not None:
+            node.arg = self.mangle(node.arg)
+        return node
+
+
 def _names(sym):
     if not sym:
         return frozenset()
@@ -580,6 +611,11 @@ def recode(fn, ovld, recurse_sym, call_next_sym, newname):
         ast.increment_lineno(tree, -1)
     else:
         tree = ast.parse(src)
+    owner = getattr(fn, "__qualname__", "").split(".")[-2:-1]
+    if owner and owner[0] != "<locals>" and owner[0].strip("_"):
+        # Defined in a class body: private names are mangled there, and the
+        # source is compiled again outside of the class
+        tree = PrivateNameMangler(owner[0]).visit(tree)
     new = NameConverter(
         anal=ovld.argument_analysis,
         recurse_sym=recurse_sym,
